@@ -280,6 +280,10 @@ class J1939_22:
             # if the PF is between 240 and 255, the message can only be broadcast
             if dest_address == ParameterGroupNumber.Address.GLOBAL:
 
+                if pgn.is_pdu1_format:
+                    # the PS byte of a PDU1 message is its destination (here: global), not part of the PGN
+                    pgn.pdu_specific = 0
+
                 # send BAM
                 self.__send_tp_bam(priority, src_address, session_num, pgn.value, message_size, num_segments)
 
